@@ -320,14 +320,12 @@ def expected_plain(node, attr, op, term):
     return want
 
 
-def explore(tier, seed):
+def plan(tier):
+    """Shards: one per operator of the grid, the spellings, slices of the
+    inversion corpus.  (Run through core.explore, so that a verdict which
+    depends on what the worker process compared before is replayed with that
+    history.)"""
     global DOCS, SEGS
-    total = core.Stats(ID)
-    for st in core.pmap(grid_shard, list(OPS)):
-        total.merge(st)
-    grid_evals = total.evaluations
-    for st in core.pmap(spelling_shard, [0]):
-        total.merge(st)
     if tier == "quick":
         DOCS = corpus.docs(4, (1000, "a", "b", 2000), ("a", "b"))
         terms = ("a", "1000")
@@ -338,18 +336,25 @@ def explore(tier, seed):
     SEGS = [("search", attr, op, term, False) for attr in (".", "a")
             for op in paths.OPS for term in terms]
     step = max(1, len(DOCS) // (core.jobs() * 6))
-    rngs = [(lo, min(len(DOCS), lo + step))
-            for lo in range(0, len(DOCS), step)]
-    rot = seed % len(rngs)
-    for st in core.pmap(inv_shard, rngs[rot:] + rngs[:rot]):
-        total.merge(st)
+    shards = [("grid", op) for op in OPS] + [("spelling", 0)] + [
+        ("inv", lo, min(len(DOCS), lo + step))
+        for lo in range(0, len(DOCS), step)]
     bounds = {"grid": {"operators": list(OPS), "haystacks": HAY_YAML,
-                       "needles": NEEDLES, "pairs": grid_evals},
+                       "needles": NEEDLES,
+                       "pairs": len(OPS) * len(HAY_YAML) * len(NEEDLES)},
               "inversion": {"documents": len(DOCS), "segments": len(SEGS),
                             "note": "every non-scalar position of every "
                             "document x every search segment x {plain, "
                             "inverted}"}}
-    return total, bounds
+    return shards, bounds
+
+
+def run_shard(shard):
+    if shard[0] == "grid":
+        return grid_shard(shard[1])
+    if shard[0] == "spelling":
+        return spelling_shard(0)
+    return inv_shard((shard[1], shard[2]))
 
 
 def replay(case):
